@@ -6,16 +6,17 @@ use crate::{
     state::random::Random,
 };
 
-/// @verif anchor=GeometricCooling::map
+/// @verif anchor=GeometricCooling::map pre="alpha in [0,1) as from_params admits; finite temperature"
 #[cfg_attr(kani, kani::proof)]
 pub fn c17_geometric_cooling_map() {
     let (alpha, t): (f64, f64) = (sym(), sym());
+    // `from_params` admits alpha in [0, 1); temperatures are finite
+    assume(alpha >= 0.0 && alpha < 1.0 && t.is_finite());
     let g = GeometricCooling { alpha, lens: ValueOf::<Temperature>::new() };
     let mut rng = Random::with_rng::<SymRng>(0);
     let r = <GeometricCooling<ValueOf<Temperature>> as Mapping<ScalarProblem>>::map(&g, t, &mut rng);
     match r {
-        Ok(v) => assert!(v.to_bits() == (t * alpha).to_bits() || (v.is_nan() && (t * alpha).is_nan()),
-                         "cooling must multiply the temperature by alpha exactly once"),
+        Ok(v) => assert!(v.to_bits() == (t * alpha).to_bits(), "cooling must multiply the temperature by alpha exactly once"),
         Err(e) => { std::mem::forget(e); assert!(false, "cooling must not fail"); }
     }
 }
